@@ -6,6 +6,7 @@ function computes changes the generated definition and breaks its bridge.
 -/
 import RegionsVerif.Gen.FormulasC04
 import RegionsVerif.Impl.Extent
+import Mathlib.Tactic.Ring
 
 namespace RegionsVerif.Bridge.C04
 open RegionsVerif.Impl RegionsVerif.Gen
@@ -26,6 +27,38 @@ theorem line_bounding_box (a b : Pt α) :
 theorem point_bounding_box (c : Pt α) :
     FormulasC04.point_bounding_box c.x c.y = bboxOfExtent (pointExtent c) := rfl
 
+/-- ellipse: `from_float(cx ∓ √dx², cy ∓ √dy²)` with the squared half-extents of the model
+(`np.sqrt` is a parameter of the translated definition). -/
+theorem ellipse_bounding_box (r : Ellipse α) (sqrtF : α → α) :
+    FormulasC04.ellipse_bounding_box r.dir.c r.dir.s r.center.x r.center.y r.height r.width sqrtF =
+      BBox.fromFloat (r.center.x - sqrtF r.halfExtent2.1) (r.center.x + sqrtF r.halfExtent2.1)
+        (r.center.y - sqrtF r.halfExtent2.2) (r.center.y + sqrtF r.halfExtent2.2) := by
+  have e1 : (1/2 * r.width * r.dir.c) ^ 2 + (1/2 * r.height * (-r.dir.s)) ^ 2 = r.halfExtent2.1 := by
+    unfold Ellipse.halfExtent2; ring
+  have e2 : (1/2 * r.width * r.dir.s) ^ 2 + (1/2 * r.height * r.dir.c) ^ 2 = r.halfExtent2.2 := by
+    unfold Ellipse.halfExtent2; ring
+  unfold FormulasC04.ellipse_bounding_box
+  rw [e1, e2]
+
+/-- polygon: `from_float(x.min(), x.max(), y.min(), y.max())` in this order. -/
+theorem polygon_bounding_box (e : α × α × α × α) :
+    FormulasC04.polygon_bounding_box e.2.1 e.1 e.2.2.2 e.2.2.1 = bboxOfExtent e := rfl
+
 end
+
+/-- compound: the union of the operands' boxes; annulus: the outer component's box. -/
+theorem compound_bounding_box (b1 b2 : BBox) :
+    FormulasC04.compound_bounding_box b1 b2 = BBox.union b1 b2 := rfl
+
+theorem annulus_bounding_box (b : BBox) : FormulasC04.annulus_bounding_box b = b := rfl
+
+/-- the region-expression model uses exactly these: -/
+theorem preg_bbox_compound (op : BoolOp) (r1 r2 : PReg ℚ) (i : Include) :
+    (PReg.compound op r1 r2 i).bbox =
+      (do let b1 ← r1.bbox; let b2 ← r2.bbox; FormulasC04.compound_bounding_box b1 b2) := rfl
+
+theorem preg_bbox_polygon (g : Polygon ℚ) (i : Include) (e : ℚ × ℚ × ℚ × ℚ) (he : g.extent = some e) :
+    (PReg.polygon g i).bbox = FormulasC04.polygon_bounding_box e.2.1 e.1 e.2.2.2 e.2.2.1 := by
+  simp only [PReg.bbox, he]; rfl
 
 end RegionsVerif.Bridge.C04
